@@ -242,3 +242,115 @@ MON_SUB (ranged<sub_inplace<float>>, "inplace_forms_float", 2400000, 240000000)
 MON_SUB (ranged<sub_inplace<double>>, "inplace_forms_double", 2400000, 240000000)
     .req (INPLACE_REQ)
     .over ("as inplace_forms_float, for double");
+
+// ------------------------------------------------------------------ mixed parameter types
+// Every builder and in-place form is a template on the parameter's element type S (translate (const Vec2<S>&) ...).  With
+// S != T:  (a) set*(p) stores T (p[i]) - bit-identical to set*(Vec<T> (p));  (b) the in-place form still equals
+// set*(p) * M within C eps_T sum|terms| (the parameter may enter unrounded: |p - T(p)| |M| <= eps_T |p||M|).
+// Added after seeded change C09-5 (Matrix33::shear (Vec2<S>) copied the current matrix into a Matrix33<S>).
+template <class T, class S> static void
+sub_inplace_mixed (Ctx& c, Local& L, uint64_t idx)
+{
+    static const char* const FN[9] = {"Matrix33.translate", "Matrix33.scale", "Matrix33.shear(S)", "Matrix33.shear(Vec2)", "Matrix44.translate",
+                                      "Matrix44.scale",     "Matrix44.shear(Vec3)", "Matrix44.shear(Shear6)", "Matrix22.scale"};
+    static const int         DIM[9] = {3, 3, 3, 3, 4, 4, 4, 4, 2};
+    static const int         NP[9]  = {2, 2, 1, 2, 3, 3, 3, 6, 2};
+    Rng            r  = c.rng (idx);
+    const unsigned op = (unsigned) (idx % 9);
+    const unsigned mc = (unsigned) ((idx / 9) % 3);
+    const int      N = DIM[op], np = NP[op];
+    const bool     intS = std::is_integral<S>::value;
+    static const char* const MCN[3] = {"mixed.current_matrix_non_integer_dense", "mixed.current_matrix_affine", "mixed.current_matrix_wide_exponent"};
+    T M0[4][4];
+    for (int i = 0; i < 4; ++i)
+        for (int j = 0; j < 4; ++j)
+            M0[i][j] = mc == 1 ? (j == N - 1 ? (T) (i == N - 1 ? 1 : 0) : (T) (r.gauss () * 2)) : mc == 2 ? (T) r.logscale (-12, 12) : (T) (r.gauss () * 2);
+    S par[6];
+    for (int i = 0; i < 6; ++i) par[i] = intS ? (S) r.range (-8, 8) : (S) (r.gauss () * 4);
+    T parT[6];
+    for (int i = 0; i < 6; ++i) parT[i] = (T) par[i];
+    typedef Matrix22<T> M2;
+    typedef Matrix33<T> M3;
+    typedef Matrix44<T> M4;
+    Vec2<S>   v2 (par[0], par[1]);
+    Vec3<S>   v3 (par[0], par[1], par[2]);
+    Vec2<T>   w2 (parT[0], parT[1]);
+    Vec3<T>   w3 (parT[0], parT[1], parT[2]);
+    Shear6<S> h6;
+    h6.xy = par[0]; h6.xz = par[1]; h6.yz = par[2]; h6.yx = par[3]; h6.zx = par[4]; h6.zy = par[5];
+    Shear6<T> g6;
+    g6.xy = parT[0]; g6.xz = parT[1]; g6.yz = parT[2]; g6.yx = parT[3]; g6.zx = parT[4]; g6.zy = parT[5];
+    T G[4][4] = {}, SS[4][4] = {}, ST[4][4] = {};
+    auto load3 = [&] (M3& m) { for (int i = 0; i < 3; ++i) for (int j = 0; j < 3; ++j) m[i][j] = M0[i][j]; };
+    auto load4 = [&] (M4& m) { for (int i = 0; i < 4; ++i) for (int j = 0; j < 4; ++j) m[i][j] = M0[i][j]; };
+    auto out3  = [&] (const M3& m, T (*D)[4]) { for (int i = 0; i < 3; ++i) for (int j = 0; j < 3; ++j) D[i][j] = m[i][j]; };
+    auto out4  = [&] (const M4& m, T (*D)[4]) { for (int i = 0; i < 4; ++i) for (int j = 0; j < 4; ++j) D[i][j] = m[i][j]; };
+    M3 a3, s3, t3;
+    M4 a4, s4, t4;
+    M2 a2, s2, t2;
+    switch (op)
+    {
+        case 0: load3 (a3); a3.translate (v2); s3.setTranslation (v2); t3.setTranslation (w2); out3 (a3, G); out3 (s3, SS); out3 (t3, ST); break;
+        case 1: load3 (a3); a3.scale (v2); s3.setScale (v2); t3.setScale (w2); out3 (a3, G); out3 (s3, SS); out3 (t3, ST); break;
+        case 2: load3 (a3); a3.shear (par[0]); s3.setShear (par[0]); t3.setShear (parT[0]); out3 (a3, G); out3 (s3, SS); out3 (t3, ST); break;
+        case 3: load3 (a3); a3.shear (v2); s3.setShear (v2); t3.setShear (w2); out3 (a3, G); out3 (s3, SS); out3 (t3, ST); break;
+        case 4: load4 (a4); a4.translate (v3); s4.setTranslation (v3); t4.setTranslation (w3); out4 (a4, G); out4 (s4, SS); out4 (t4, ST); break;
+        case 5: load4 (a4); a4.scale (v3); s4.setScale (v3); t4.setScale (w3); out4 (a4, G); out4 (s4, SS); out4 (t4, ST); break;
+        case 6: load4 (a4); a4.shear (v3); s4.setShear (v3); t4.setShear (w3); out4 (a4, G); out4 (s4, SS); out4 (t4, ST); break;
+        case 7: load4 (a4); a4.shear (h6); s4.setShear (h6); t4.setShear (g6); out4 (a4, G); out4 (s4, SS); out4 (t4, ST); break;
+        default:
+            for (int i = 0; i < 2; ++i) for (int j = 0; j < 2; ++j) a2[i][j] = M0[i][j];
+            a2.scale (v2); s2.setScale (v2); t2.setScale (w2);
+            for (int i = 0; i < 2; ++i) for (int j = 0; j < 2; ++j) { G[i][j] = a2[i][j]; SS[i][j] = s2[i][j]; ST[i][j] = t2[i][j]; }
+            break;
+    }
+    c.eval ();
+    L.cls (MCN[mc]);
+    L.cls (FN[op]);
+    {
+        uint64_t h = hash_arr (parT, np, op + 100);
+        for (int i = 0; i < N; ++i) h = hash_arr (M0[i], N, h);
+        c.nontrivial (h);
+    }
+    const std::string ty = std::string (TN<T>::n ()) + "_with_" + (intS ? "int" : sizeof (S) == 4 ? "float" : "double") + "_parameters";
+    auto desc = [&] {
+        Obj o;
+        o.kv ("fn", FN[op]).kv ("type", ty).kv ("matrix_class", MCN[mc]).raw ("params_as_T", vstr (parT, np));
+        std::string m0 = "[", g = "[";
+        for (int i = 0; i < N; ++i)
+            for (int j = 0; j < N; ++j) { if (i || j) { m0 += ","; g += ","; } m0 += jnum ((double) M0[i][j]); g += jnum ((double) G[i][j]); }
+        o.raw ("current_matrix", m0 + "]").raw ("after_inplace_form", g + "]");
+        return o.str ();
+    };
+    bool bad_set = false, bad_tol = false;
+    int  bi = 0, bj = 0;
+    double worst = 0;
+    for (int i = 0; i < N; ++i)
+        for (int j = 0; j < N; ++j)
+        {
+            if (ulpdiff (SS[i][j], ST[i][j]) != 0) bad_set = true;
+            LD ref = 0, sa = 0;
+            for (int k = 0; k < N; ++k)
+            {
+                LD t = (LD) ST[i][k] * (LD) M0[k][j];
+                ref += t;
+                sa += fabsl (t);
+            }
+            LD     err = fabsl ((LD) G[i][j] - ref), den = (LD) EPS<T> () * sa + uflow<T> (N);
+            double ratio = (double) (err / den);
+            worst        = std::max (worst, ratio);
+            if (!(ratio <= C_INPLACE)) { if (!bad_tol) { bi = i; bj = j; } bad_tol = true; }
+        }
+    if (bad_set) c.fail (std::string (FN[op]) + "." + ty + ":set_form_differs_from_converted_parameter", idx, desc);
+    if (bad_tol) c.fail (std::string (FN[op]) + "." + ty + ":inplace_vs_set_times_M:slot[" + std::to_string (bi) + "][" + std::to_string (bj) + "]", idx, desc);
+    L.worst ("inplace.mixed.err_over_eps_sumabs", worst, idx, desc);
+}
+#define MIXED_REQ                                                                                                                        \
+    {"mixed.current_matrix_non_integer_dense", "mixed.current_matrix_affine", "mixed.current_matrix_wide_exponent", "Matrix33.translate",   \
+     "Matrix33.scale", "Matrix33.shear(S)", "Matrix33.shear(Vec2)", "Matrix44.translate", "Matrix44.scale", "Matrix44.shear(Vec3)",        \
+     "Matrix44.shear(Shear6)", "Matrix22.scale"}
+MON_SUB ((ranged<sub_inplace_mixed<float, double>>), "inplace_forms_float_matrix_double_parameters", 270000, 27000000).req (MIXED_REQ)
+    .over ("9 in-place forms and their set* twins on a float matrix with double parameters x 3 classes of current matrix: set*(p) == set*(T(p)) bitwise; in-place form vs set*(p)*M within C eps_T sum|terms|");
+MON_SUB ((ranged<sub_inplace_mixed<double, float>>), "inplace_forms_double_matrix_float_parameters", 270000, 27000000).req (MIXED_REQ).over ("as above, double matrix, float parameters");
+MON_SUB ((ranged<sub_inplace_mixed<float, int>>), "inplace_forms_float_matrix_int_parameters", 270000, 27000000).req (MIXED_REQ).over ("as above, float matrix, int parameters");
+MON_SUB ((ranged<sub_inplace_mixed<double, int>>), "inplace_forms_double_matrix_int_parameters", 270000, 27000000).req (MIXED_REQ).over ("as above, double matrix, int parameters");
